@@ -1,5 +1,7 @@
 package fstxn
 
+import "github.com/mit-pdos/go-nfsd/util/verifhook"
+
 // putInodes may free an inode so must be done before commit
 func (op *FsTxn) preCommit() {
 	op.Atxn.PreCommit()
@@ -11,9 +13,12 @@ func (op *FsTxn) postCommit() {
 }
 
 func (op *FsTxn) commitWait(wait bool) bool {
+	verifhook.Emit(verifhook.EvPreCommit, op, 0)
 	op.preCommit()
 	ok := op.Atxn.Op.CommitWait(wait)
+	verifhookCommitted(op, ok)
 	op.postCommit()
+	verifhook.Emit(verifhook.EvPostCommit, op, 0)
 	return ok
 }
 
@@ -35,16 +40,28 @@ func (op *FsTxn) CommitUnstable() bool {
 // Flush log. We don't have to flush data from other file handles, but
 // that is only an option if we do log-by-pass writes.
 func (op *FsTxn) CommitFh() bool {
+	verifhook.Emit(verifhook.EvPreCommit, op, 0)
 	op.preCommit()
 	ok := op.Fs.Txn.Flush()
+	verifhookCommitted(op, ok)
 	op.postCommit()
+	verifhook.Emit(verifhook.EvPostCommit, op, 0)
 	return ok
 }
 
 // An aborted transaction may free an inode, which results in dirty
 // buffers that need to be written to log. So, call commit.
 func (op *FsTxn) Abort() bool {
+	verifhook.Emit(verifhook.EvAbort, op, 0)
 	op.releaseInodes()
 	op.Atxn.PostAbort()
 	return true
+}
+
+func verifhookCommitted(op *FsTxn, ok bool) {
+	if ok {
+		verifhook.Emit(verifhook.EvCommitted, op, 0)
+	} else {
+		verifhook.Emit(verifhook.EvCommitFailed, op, 0)
+	}
 }
